@@ -280,13 +280,21 @@ def newline_less(d: Desc) -> bool:
     return False
 
 
+def _terminate(d: Desc) -> Desc:
+    """the same node with its newline-less tail replaced by a renderable that ends its line (ProgressBar -> Bar);
+    keeps the nesting depth"""
+    t = d["t"]
+    if t == "ProgressBar":
+        return {"t": "Bar", "size": 100, "begin": 0, "end": 50, "width": d["width"]}
+    if t in ("Constrain", "NoMeasure", "Cast"):
+        return dict(d, child=_terminate(d["child"]))
+    if t == "Group" and d["children"]:
+        return dict(d, children=d["children"][:-1] + [_terminate(d["children"][-1])])
+    return d
+
+
 def _fix_group(kids: List[Desc]) -> List[Desc]:
-    out = []
-    for i, k in enumerate(kids):
-        if newline_less(k) and i != len(kids) - 1:
-            k = {"t": "Padding", "child": k, "pad": [0, 0, 0, 0], "expand": True}
-        out.append(k)
-    return out
+    return [(_terminate(k) if (i != len(kids) - 1 and newline_less(k)) else k) for i, k in enumerate(kids)]
 
 
 def gen_tree(rng: random.Random, depth: int, pool: str = "main", extras: bool = False, max_nodes: int = 14) -> Desc:
